@@ -98,6 +98,7 @@ pub fn grammar(level: u8) -> Vec<Piece> {
         piece("h_nocolon", Class::Header, b"nocolon\r\n"),
         piece("h_nonutf8", Class::Header, b"X: \xff\r\n"),
         piece("h_ae_bad", Class::Header, b"Accept-Encoding: *;q=0\r\n"),
+        piece("h_ae_empty", Class::Header, b"Accept-Encoding:\r\n"),
         piece("h_xa", Class::Header, b"X-a: 1\r\n"),
         piece("blank", Class::Blank, b"\r\n"),
         piece("body_abc", Class::Body, b"abc"),
@@ -105,7 +106,7 @@ pub fn grammar(level: u8) -> Vec<Piece> {
     ];
     if level == 1 {
         let full = grammar(2);
-        for name in ["rl_patch_utf8", "h_cl41", "h_ae_empty", "stray_lf", "h_expect_unsupported", "rl_len_b+1"] {
+        for name in ["rl_patch_utf8", "h_cl41", "stray_lf", "h_expect_unsupported", "rl_len_b+1"] {
             if let Some(x) = full.iter().find(|x| x.name == name) {
                 p.push(x.clone());
             }
@@ -123,7 +124,6 @@ pub fn grammar(level: u8) -> Vec<Piece> {
             piece("rl_len_b+1", Class::ReqLine, &line_of_len("GET /", " HTTP/1.1", b + 1)),
             piece("h_cl41", Class::Header, b"Content-Length: 41\r\n"),
             piece("h_cl40", Class::Header, b"Content-Length: 40\r\n"),
-            piece("h_ae_empty", Class::Header, b"Accept-Encoding:\r\n"),
             piece("h_accept_json", Class::Header, b"Accept: application/json\r\n"),
             piece("h_te_chunked", Class::Header, b"Transfer-Encoding: chunked\r\n"),
             piece("h_len_b+1", Class::Header, &line_of_len("X-a: ", "", b + 1)),
